@@ -15,7 +15,23 @@ import (
 	"verif/mc/pipe"
 )
 
-const modPath = "x.io/test"
+// module layouts: module path, directory prefix of the entry packages, directories of the imported and
+// of the never-selected package. Layouts 1 and 2 make the module path (or its last element) re-occur
+// inside package paths and directory names.
+type layout struct {
+	Mod, Entry, Dep, Other string
+}
+
+var layouts = []layout{
+	{"x.io/test", "p", "dep", "other"},
+	{"app", "p/app", "app", "other/app"},
+	{"x.io/te.st/v2", "p/v2/x.io/te.st", "v2", "te.st/v2"},
+}
+
+var modPath = layouts[0].Mod
+var lay = layouts[0]
+
+func lastSeg(s string) string { return s[strings.LastIndex(s, "/")+1:] }
 
 // behaviours of a generator for the (single enabled) type T of each package
 var behaviours = []string{"render", "nothing", "skip", "ignore", "ignore+render"}
@@ -57,7 +73,7 @@ const nPre = 8
 func pkgSrc(name string, imports string) string {
 	s := "package " + name + "\n\n"
 	if imports != "" {
-		s += "import \"" + imports + "\"\n\nvar _ " + imports[strings.LastIndex(imports, "/")+1:] + ".T\n\n"
+		s += "import dep \"" + imports + "\"\n\nvar _ dep.T\n\n"
 	}
 	return s + "type T struct{ A int }\n\ntype U int\n"
 }
@@ -82,10 +98,10 @@ func buildModule(base string, subsets []int) pipe.Tree {
 	}
 	for _, s := range subsets {
 		name := fmt.Sprintf("k%03d", s)
-		add("p/"+name, name, s, modPath+"/dep")
+		add(lay.Entry+"/"+name, name, s, modPath+"/"+lay.Dep)
 	}
-	add("dep", "dep", 1<<nPre-1, "")
-	add("other", "other", 1<<nPre-1, "")
+	add(lay.Dep, "dep", 1<<nPre-1, "")
+	add(lay.Other, "other", 1<<nPre-1, "")
 	return t
 }
 
@@ -95,6 +111,7 @@ type Run struct {
 }
 
 type Case struct {
+	Layout  int    `json:"module_layout,omitempty"`
 	Base    string `json:"base"`
 	Subsets []int  `json:"pre_existing_file_subsets"`
 	Runs    []Run  `json:"runs"`
@@ -103,6 +120,8 @@ type Case struct {
 func dirOfPkg(path string) string { return strings.TrimPrefix(strings.TrimPrefix(path, modPath), "/") }
 
 func checkCase(c *core.Ctx, cs Case) {
+	lay = layouts[cs.Layout]
+	modPath = lay.Mod
 	dir := pipe.TempDir("c07")
 	defer os.RemoveAll(dir)
 	if err := pipe.WriteTree(dir, buildModule(cs.Base, cs.Subsets)); err != nil {
@@ -118,7 +137,7 @@ func checkCase(c *core.Ctx, cs Case) {
 			return
 		}
 		spec := pipe.Spec{
-			Dir: dir, Entrypoints: []string{"./p/..."}, All: r.All, Base: cs.Base,
+			Dir: dir, Entrypoints: []string{"./" + lay.Entry + "/..."}, All: r.All, Base: cs.Base,
 			Globals: map[string][]string{"gengo:g1": {"true"}, "gengo:g2": {"true"}},
 			Gens: []pipe.GenScript{
 				{Name: "g1", Default: pipe.Action{}, ByType: byT(cs.Subsets, action(r.B1))},
@@ -144,12 +163,12 @@ func checkCase(c *core.Ctx, cs Case) {
 		}
 		// which packages must have been processed: all entry packages; dep iff All (unless cached: only possible from run 2 on)
 		for _, s := range cs.Subsets {
-			d := fmt.Sprintf("p/k%03d", s)
+			d := fmt.Sprintf("%s/k%03d", lay.Entry, s)
 			if !processed[d] && !(r.All && ri > 0) {
 				c.Fail("", cs, "run %d: entry package %s was not processed", ri+1, d)
 			}
 		}
-		if processed["other"] || (!r.All && processed["dep"]) {
+		if processed[lay.Other] || (!r.All && processed[lay.Dep]) {
 			c.Fail("", cs, "run %d: a package that was not selected was processed: %v", ri+1, keys(processed))
 		}
 		created, changed, deleted := pipe.Diff(before, after)
@@ -175,7 +194,7 @@ func checkCase(c *core.Ctx, cs Case) {
 		for d := range processed {
 			for gi, g := range []string{"g1", "g2"} {
 				b := []string{r.B1, r.B2}[gi]
-				if d == "dep" {
+				if d == lay.Dep {
 					b = "nothing" // ByType only scripts the p/k* packages; dep uses Default (nothing)
 				}
 				f := d + "/" + cs.Base + "." + g + ".go"
@@ -205,7 +224,7 @@ func checkCase(c *core.Ctx, cs Case) {
 func byT(subsets []int, a pipe.Action) map[string]pipe.Action {
 	m := map[string]pipe.Action{}
 	for _, s := range subsets {
-		m[fmt.Sprintf("%s/p/k%03d.T", modPath, s)] = a
+		m[fmt.Sprintf("%s/%s/k%03d.T", modPath, lay.Entry, s)] = a
 	}
 	return m
 }
@@ -270,6 +289,28 @@ func run(c *core.Ctx) {
 			}
 		}
 	}
+	// the other module layouts (module path re-occurring inside package paths): one-run histories
+	var ls []string
+	for _, l := range layouts {
+		ls = append(ls, fmt.Sprintf("module %s: entries %s/kNNN, imported %s, unselected %s", l.Mod, l.Entry, l.Dep, l.Other))
+	}
+	c.Bound("module_layouts", ls)
+	for li := 1; li < len(layouts); li++ {
+		for _, all := range []bool{false, true} {
+			for _, b1 := range behaviours {
+				for _, b2 := range behaviours {
+					if !c.Next() {
+						continue
+					}
+					small := subsets
+					if len(small) > 12 {
+						small = []int{0, 1<<nPre - 1, 1 << 3, 1 << 4, 1<<4 | 1<<5, 1 << 6}
+					}
+					checkCase(c, Case{Layout: li, Base: "zz_generated", Subsets: small, Runs: []Run{{b1, b2, all}}})
+				}
+			}
+		}
+	}
 	// two-run histories (previous outputs produced by the real system)
 	for _, all1 := range []bool{false, true} {
 		for _, all2 := range []bool{false, true} {
@@ -321,7 +362,7 @@ func replay(c *core.Ctx, raw json.RawMessage) {
 func init() {
 	core.Register(&core.Prop{
 		ID: "C07", Level: "model_checking", Run: run, Replay: replay,
-		Rule: "histories of 1 and 2 real runs over all 25 (g1,g2) behaviour pairs {render, nothing, ErrSkip, ErrIgnore, ErrIgnore+render} per run x All on/off per run x base names, each run processing one package per subset of 8 pre-existing file kinds plus an imported and a never-selected package; every file of the module is compared before/after; non-trivial = every case (each contains look-alike and stale files); states = distinct (behaviour pair, All, run index, #created, #changed, #deleted)",
+		Rule: "histories of 1 and 2 real runs over all 25 (g1,g2) behaviour pairs {render, nothing, ErrSkip, ErrIgnore, ErrIgnore+render} per run x All on/off per run x base names, each run processing one package per subset of 8 pre-existing file kinds plus an imported and a never-selected package, in 3 module layouts (two of them with the module path re-occurring inside package paths); every file of the module is compared before/after; non-trivial = every case (each contains look-alike and stale files); states = distinct (behaviour pair, All, run index, #created, #changed, #deleted)",
 		Assumptions: []string{
 			"a package counts as processed when a generator callback was invoked for it (cached packages of a second All run are not processed)",
 			"<base>.txt only has to stay inside the allowed set",
